@@ -9,7 +9,8 @@ import random, copy
 OPT_KEYS = ["version", "region", "compiler", "modding", "k1"]
 OPT_VALS = ["us", "jp", "eu", "gcc", "kmc", "true", "x/y", ""]
 SEG_NAMES = ["boot", "main", "code", "ovl1", "ovl2", "battle", "world", "lib", "seg_a", "Seg9", "_x", "assets"]
-ALLOC_POOL = [".text", ".data", ".rodata", ".sdata", ".rdata", ".late_rodata", ".ctors", "mytext", ".init"]
+ALLOC_POOL = [".text", ".data", ".rodata", ".sdata", ".rdata", ".late_rodata", ".ctors", "mytext", ".init", "rodata",
+              "text", ".data.rel"]
 NOLOAD_POOL = [".sbss", ".scommon", ".bss", "COMMON", ".noload2", "mybss"]
 SUB_POOL = [".rdata", ".late_rodata", ".text.hot", ".data.rel", ".sdata2", ".bss.extra", "sub1", "sub2"]
 DIRS = ["src", "build", "lib", "asm", "a.b", "x", "{version}", "{region}", "v_{version}", "{version}_{region}",
@@ -47,6 +48,12 @@ class Gen:
 
     def pow2(self):
         return self.pick([1, 2, 4, 8, 0x10, 0x20, 0x40, 0x1000])
+
+    def align_value(self):
+        # GNU ld's ALIGN(x, n) accepts any n; SUBALIGN wants a power of two
+        if self.r.random() < 0.12:
+            return self.pick([3, 6, 0xC, 0x18, 0x30, 100])
+        return self.pow2()
 
     # ---- options
     def options(self):
@@ -185,17 +192,25 @@ class Gen:
         for f in ("subalign", "segment_start_align", "segment_end_align", "section_start_align",
                   "section_end_align"):
             if self.chance("align"):
-                rec[f] = maybe_null(self.pow2())
+                rec[f] = maybe_null(self.pow2() if f == "subalign" else self.align_value())
         for f in ("sections_start_alignment", "sections_end_alignment"):
             if self.chance("align"):
-                rec[f] = {k: self.pow2() for k in self.subset(sections + [".nosuch"], 0, 3)}
+                rec[f] = {k: self.align_value() for k in self.subset(sections + [".nosuch"], 0, 3)}
         if self.r.random() < 0.2:
             rec["wildcard_sections"] = self.r.random() < 0.5
         if self.r.random() < 0.25:
             rec["fill_value"] = maybe_null(self.pick([0, 0xA5A5A5A5, 0xFF, 0xFFFFFFFF]))
         if self.chance("subgroups"):
             keys = self.subset(sections, 1, 2)
-            rec["sections_subgroups"] = {k: self.subset(SUB_POOL, 1, 2) for k in keys}
+            sg = {k: self.subset(SUB_POOL, 1, 2) for k in keys}
+            if self.r.random() < 0.35:
+                # a sub-group member that has sub-groups of its own (nesting depth two and more)
+                members = [m for v in sg.values() for m in v]
+                parent = self.pick(members)
+                kids = [x for x in SUB_POOL if x not in members and x not in sg][:3]
+                if kids and parent not in sg:
+                    sg[parent] = self.subset(kids, 1, 2)
+            rec["sections_subgroups"] = sg
 
     def settings(self):
         st = {}
@@ -220,7 +235,8 @@ class Gen:
                 st["symbols_header_as_array"] = self.r.random() < 0.5
         if self.chance("tail"):
             if self.r.random() < 0.5:
-                st["sections_allowlist"] = self.subset([".shstrtab", ".mdebug", ".note", "mysec"], 0, 3)
+                st["sections_allowlist"] = self.subset([".shstrtab", ".mdebug", ".note", "mysec", ".ctors", ".init", ".reginfo",
+                                                        ".got", ".bss"], 0, 3)
             if self.r.random() < 0.5:
                 st["sections_allowlist_extra"] = self.subset([".symtab", ".strtab", ".comment"], 0, 2)
             if self.r.random() < 0.5:
